@@ -588,6 +588,19 @@ class Flow:
                             all(any(d.stmt is a for a in built._acc_stmts) for d in defs if d is not d0):
                         ex = self._expand_comp(built, d0, depth - 1, stack + ((nid, d0.id),))
                         return ast.Call(func=ast.Name(id="sum", ctx=ast.Load()), args=[ex], keywords=[])
+        if isinstance(n, ast.Name) and len(defs) > 1:
+            # `L = []; for ...: L += [e]`  read after the loop is  [e for ...]
+            for d0 in defs:
+                how0 = self.def_how(d0, nid)
+                if how0[0] == "assign" and isinstance(how0[1], ast.List) and not how0[1].elts:
+                    built = self._loop_built(nid, d0, node)
+                    if built is not None and isinstance(built, ast.ListComp) and getattr(built, "_acc_stmts", None) and \
+                            all(any(d.stmt is a for a in built._acc_stmts) for d in defs if d is not d0) \
+                            and not any(node in self.cfg.loop_body_nodes(t) for d in defs if d is not d0 for t, lab in self.cfg.edges_dominating(d) if t.kind == "for" and lab is True):
+                        ex = self._expand_comp(built, d0, depth - 1, stack + ((nid, d0.id),))
+                        if getattr(built, "_sorted_after", False):
+                            ex = ast.Call(func=ast.Name(id="sorted", ctx=ast.Load()), args=[ex], keywords=[])
+                        return ex
         if isinstance(n, ast.Name) and len(defs) == 2:
             ext = self._running_extreme(nid, defs, node, depth, stack)
             if ext is not None:
@@ -776,6 +789,34 @@ class Flow:
             return None
         same = lambda a, b: ast.dump(a) == ast.dump(b)
         run = lambda a: isinstance(a, ast.Name) and a.id == name
+        # arg-extreme: `best = S[0]; for x in S: if K(x) > K(best): best = x`  is  max(S, key=lambda x: K(x))  (strict comparison keeps the
+        # first extreme element, as max/min do)
+        if isinstance(val, ast.Name) and isinstance(loop.stmt.target, ast.Name) and val.id == loop.stmt.target.id and op in (ast.Gt, ast.Lt) \
+                and not run(l) and not run(r):
+            xv = val.id
+            k_of_run_l = _subst_names(copy.deepcopy(l), {xv: ast.Name(id=name, ctx=ast.Load())})
+            k_of_run_r = _subst_names(copy.deepcopy(r), {xv: ast.Name(id=name, ctx=ast.Load())})
+            uses_x = lambda e_: any(isinstance(y, ast.Name) and y.id == xv for y in ast.walk(e_))
+            kx = kind_k = None
+            if uses_x(l) and same(k_of_run_l, r):
+                kx, kind_k = l, ("max" if op is ast.Gt else "min")
+            elif uses_x(r) and same(k_of_run_r, l):
+                kx, kind_k = r, ("min" if op is ast.Gt else "max")
+            others_k = [x for x in ast.walk(loop.stmt) if isinstance(x, ast.Name) and x.id == name and isinstance(x.ctx, ast.Store)]
+            if kx is not None and len(others_k) == 1:
+                init_k = self.expand(d_init[1], d_init[0], depth - 1, stack + ((name, d_init[0].id),))
+                it_k = self.expand(copy.deepcopy(loop.stmt.iter), loop, depth - 1, stack)
+                first_k = ast.Subscript(value=copy.deepcopy(it_k), slice=ast.Constant(value=0), ctx=ast.Load())
+                tail = isinstance(it_k, ast.Subscript) and isinstance(it_k.slice, ast.Slice) and it_k.slice.upper is None and it_k.slice.step is None \
+                    and isinstance(it_k.slice.lower, ast.Constant) and it_k.slice.lower.value == 1
+                whole = it_k.value if tail else it_k
+                first_w = ast.Subscript(value=copy.deepcopy(whole), slice=ast.Constant(value=0), ctx=ast.Load())
+                nrm = lambda e_: " ".join(ast.unparse(e_).split())
+                if nrm(init_k) in (nrm(first_k), nrm(first_w)):
+                    lam = ast.Lambda(args=ast.arguments(posonlyargs=[], args=[ast.arg(arg=xv)], kwonlyargs=[], kw_defaults=[], defaults=[]), body=copy.deepcopy(kx))
+                    return ast.fix_missing_locations(ast.copy_location(
+                        ast.Call(func=ast.Name(id=kind_k, ctx=ast.Load()), args=[copy.deepcopy(whole)], keywords=[ast.keyword(arg="key", value=lam)]), loop.stmt))
+            return None
         if run(r) and same(l, val):
             kind = "max" if op in (ast.Gt, ast.GtE) else "min"
         elif run(l) and same(r, val):
@@ -838,7 +879,12 @@ class Flow:
                     temps.append((s.target.id, s.value))
                 if isinstance(s, ast.Expr) and isinstance(s.value, ast.Call) and isinstance(s.value.func, ast.Attribute) and \
                         isinstance(s.value.func.value, ast.Name) and s.value.func.value.id == name:
-                    sites.append((s.value.func.attr, s.value, tuple(fors), tuple(conds), tuple(temps)))
+                    cv = s.value
+                    if is_list and cv.func.attr == "extend" and len(cv.args) == 1 and isinstance(cv.args[0], (ast.List, ast.Tuple)) and len(cv.args[0].elts) == 1 \
+                            and not isinstance(cv.args[0].elts[0], ast.Starred):
+                        cv = ast.fix_missing_locations(ast.copy_location(ast.Call(func=ast.Attribute(value=ast.Name(id=name, ctx=ast.Load()), attr="append", ctx=ast.Load()),
+                                                                                   args=[cv.args[0].elts[0]], keywords=[]), s))
+                    sites.append((cv.func.attr, cv, tuple(fors), tuple(conds), tuple(temps)))
                 elif isinstance(s, ast.Assign) and any(isinstance(t, ast.Subscript) and isinstance(t.value, ast.Name) and t.value.id == name for t in s.targets):
                     sites.append(("setitem", s, tuple(fors), tuple(conds), tuple(temps)))
                 elif is_sum and isinstance(s, ast.AugAssign) and isinstance(s.target, ast.Name) and s.target.id == name and isinstance(s.op, ast.Add) \
@@ -849,6 +895,14 @@ class Flow:
                         and isinstance(s.value, ast.BinOp) and isinstance(s.value.op, ast.Add) and isinstance(s.value.left, ast.Name) and s.value.left.id == name \
                         and not any(isinstance(x, ast.Name) and x.id == name for x in ast.walk(s.value.right)):
                     sites.append(("accumulate", ast.AugAssign(target=s.targets[0], op=ast.Add(), value=s.value.right), tuple(fors), tuple(conds), tuple(temps)))
+                    acc_stmts.append(s)
+                elif is_list and isinstance(s, ast.AugAssign) and isinstance(s.target, ast.Name) and s.target.id == name and isinstance(s.op, ast.Add) \
+                        and isinstance(s.value, (ast.List, ast.Tuple)) and len(s.value.elts) == 1 and not isinstance(s.value.elts[0], ast.Starred) \
+                        and not any(isinstance(x, ast.Name) and x.id == name for x in ast.walk(s.value)):
+                    # a list grown by `L += [e]` (also what the loader makes of `L = L + [e]`) is `L.append(e)`
+                    call_ = ast.fix_missing_locations(ast.copy_location(ast.Call(func=ast.Attribute(value=ast.Name(id=name, ctx=ast.Load()), attr="append", ctx=ast.Load()),
+                                                                                  args=[s.value.elts[0]], keywords=[]), s))
+                    sites.append(("append", call_, tuple(fors), tuple(conds), tuple(temps)))
                     acc_stmts.append(s)
                 elif isinstance(s, (ast.AugAssign, ast.Delete)) and any(isinstance(x, ast.Name) and x.id == name for x in ast.walk(s)):
                     sites.append(("other", s, tuple(fors), tuple(conds), tuple(temps)))
@@ -969,6 +1023,7 @@ class Flow:
         comp = ast.fix_missing_locations(ast.copy_location(comp, loop))
         if sorted_after:
             comp._sorted_after = True
+        comp._acc_stmts = acc_stmts
         return comp
 
     def used_defs(self, expr, node, _seen=None):
